@@ -39,6 +39,31 @@ func verifAssert(label string, c bool) {
 
 //@ func (*TxHeader).ReadFrom
 //@   ensures shape: r0 == nil ==> hdr.ID >= 1 && hdr.BlTxID < hdr.ID && hdr.NEntries >= 1 && (hdr.Version == 0 || hdr.Version == 1)
+//@   ensures c15_scalars: r0 == nil && !sameobj(hdr, b) ==> hdr.ID == be64(b[0:]) && hdr.Ts == int64(be64(b[40:])) && hdr.Version == int(be16(b[48:]))
+//@   ensures c15_prevalh_w0: r0 == nil && !sameobj(hdr, b) ==> be64(hdr.PrevAlh[0:]) == be64(b[8:])
+//@   ensures c15_prevalh_w1: r0 == nil && !sameobj(hdr, b) ==> be64(hdr.PrevAlh[8:]) == be64(b[16:])
+//@   ensures c15_prevalh_w2: r0 == nil && !sameobj(hdr, b) ==> be64(hdr.PrevAlh[16:]) == be64(b[24:])
+//@   ensures c15_prevalh_w3: r0 == nil && !sameobj(hdr, b) ==> be64(hdr.PrevAlh[24:]) == be64(b[32:])
+//@   ensures c15_v0: r0 == nil && !sameobj(hdr, b) && be16(b[48:]) == 0 ==> hdr.NEntries == int(be16(b[50:])) && hdr.BlTxID == be64(b[84:]) && hdr.Metadata == old(hdr.Metadata)
+//@   ensures c15_v0_eh_w0: r0 == nil && !sameobj(hdr, b) && be16(b[48:]) == 0 ==> be64(hdr.Eh[0:]) == be64(b[52:])
+//@   ensures c15_v0_eh_w1: r0 == nil && !sameobj(hdr, b) && be16(b[48:]) == 0 ==> be64(hdr.Eh[8:]) == be64(b[60:])
+//@   ensures c15_v0_eh_w2: r0 == nil && !sameobj(hdr, b) && be16(b[48:]) == 0 ==> be64(hdr.Eh[16:]) == be64(b[68:])
+//@   ensures c15_v0_eh_w3: r0 == nil && !sameobj(hdr, b) && be16(b[48:]) == 0 ==> be64(hdr.Eh[24:]) == be64(b[76:])
+//@   ensures c15_v0_blroot_w0: r0 == nil && !sameobj(hdr, b) && be16(b[48:]) == 0 ==> be64(hdr.BlRoot[0:]) == be64(b[92:])
+//@   ensures c15_v0_blroot_w1: r0 == nil && !sameobj(hdr, b) && be16(b[48:]) == 0 ==> be64(hdr.BlRoot[8:]) == be64(b[100:])
+//@   ensures c15_v0_blroot_w2: r0 == nil && !sameobj(hdr, b) && be16(b[48:]) == 0 ==> be64(hdr.BlRoot[16:]) == be64(b[108:])
+//@   ensures c15_v0_blroot_w3: r0 == nil && !sameobj(hdr, b) && be16(b[48:]) == 0 ==> be64(hdr.BlRoot[24:]) == be64(b[116:])
+//@   ensures c15_v1: r0 == nil && !sameobj(hdr, b) && be16(b[48:]) == 1 && be16(b[50:]) == 0 ==> hdr.NEntries == int(be32(b[52:])) && hdr.BlTxID == be64(b[88:]) && hdr.Metadata == old(hdr.Metadata)
+//@   ensures c15_v1_eh_w0: r0 == nil && !sameobj(hdr, b) && be16(b[48:]) == 1 && be16(b[50:]) == 0 ==> be64(hdr.Eh[0:]) == be64(b[56:])
+//@   ensures c15_v1_eh_w1: r0 == nil && !sameobj(hdr, b) && be16(b[48:]) == 1 && be16(b[50:]) == 0 ==> be64(hdr.Eh[8:]) == be64(b[64:])
+//@   ensures c15_v1_eh_w2: r0 == nil && !sameobj(hdr, b) && be16(b[48:]) == 1 && be16(b[50:]) == 0 ==> be64(hdr.Eh[16:]) == be64(b[72:])
+//@   ensures c15_v1_eh_w3: r0 == nil && !sameobj(hdr, b) && be16(b[48:]) == 1 && be16(b[50:]) == 0 ==> be64(hdr.Eh[24:]) == be64(b[80:])
+//@   ensures c15_v1_blroot_w0: r0 == nil && !sameobj(hdr, b) && be16(b[48:]) == 1 && be16(b[50:]) == 0 ==> be64(hdr.BlRoot[0:]) == be64(b[96:])
+//@   ensures c15_v1_blroot_w1: r0 == nil && !sameobj(hdr, b) && be16(b[48:]) == 1 && be16(b[50:]) == 0 ==> be64(hdr.BlRoot[8:]) == be64(b[104:])
+//@   ensures c15_v1_blroot_w2: r0 == nil && !sameobj(hdr, b) && be16(b[48:]) == 1 && be16(b[50:]) == 0 ==> be64(hdr.BlRoot[16:]) == be64(b[112:])
+//@   ensures c15_v1_blroot_w3: r0 == nil && !sameobj(hdr, b) && be16(b[48:]) == 1 && be16(b[50:]) == 0 ==> be64(hdr.BlRoot[24:]) == be64(b[120:])
+//@   ensures c15_ok_v0: !sameobj(hdr, b) && len(b) >= 124 && be64(b[0:]) >= 1 && be16(b[48:]) == 0 && be16(b[50:]) >= 1 && be64(b[84:]) < be64(b[0:]) ==> r0 == nil
+//@   ensures c15_ok_v1: !sameobj(hdr, b) && len(b) >= 128 && be64(b[0:]) >= 1 && be16(b[48:]) == 1 && be16(b[50:]) == 0 && be32(b[52:]) >= 1 && be64(b[88:]) < be64(b[0:]) ==> r0 == nil
 //@   assigns hdr
 
 //@ func (*ImmuStore).NewWriteOnlyTx
@@ -59,4 +84,5 @@ func verifAssert(label string, c bool) {
 //@   loop 1 assigns entries
 
 //@ func (*txDataReader).readEntry
-//@   requires entry != nil
+//@   requires entry != nil && t.r != nil
+//@   assigns internal, entry, entry.k, t, t.digests
